@@ -10,7 +10,7 @@ import (
 func init() {
 	register(&Rule{
 		ID:    "C16.ctor",
-		Props: []string{"C16", "C10"},
+		Props: []string{"C16", "C10", "C04", "C07", "C20"},
 		Doc:   "the composite constructors (NewPolygon, NewMultiPoint, NewMultiLineString, NewMultiPolygon, NewGeometryCollection) interpreted on modelled member lists of length 0..2 with every combination of member coordinate types: the stored ctype is the AND of all members' types (XY for no members), every stored member is ForceCoordinatesType(member_i, thatType) in order, and the stored list is a fresh slice (not the caller's backing array)",
 		Floor: 5,
 		Run:   runC16Ctor,
@@ -51,10 +51,34 @@ func runC16Ctor(c *Ctx) {
 			for i := 0; i < n; i++ {
 				keys = append(keys, ctKey(i))
 			}
-			k4enumerate(keys, []float64{0, 1, 2, 3}, nil, func(m *Model) bool {
+			// emptiness of each member (only consulted by code that treats empty
+			// members specially — which a constructor must not do when forcing)
+			var emptyKeys []string
+			for i := 0; i < n; i++ {
+				emptyKeys = append(emptyKeys, fmt.Sprintf("empty[%d]", i))
+			}
+			k4enumerate(keys, []float64{0, 1, 2, 3}, emptyKeys, func(m *Model) bool {
 				models++
 				m.Missing = map[string]bool{}
 				it := &k4interp{p: c.P, m: m, mem: map[string]k4val{}, inline: inl}
+				it.answer = func(key string, isBool bool) (k4val, bool) {
+					for i := 0; i < n; i++ {
+						el := fmt.Sprintf("(P[%d])", i)
+						if !strings.Contains(key, el) {
+							continue
+						}
+						empty := m.Bool[fmt.Sprintf("empty[%d]", i)]
+						switch {
+						case isBool && strings.Contains(key, ").IsEmpty("+el[1:]):
+							return k4val{kind: 1, b: empty}, true
+						case isBool && (strings.HasSuffix(key, ").Coordinates"+el+"#1") || strings.HasSuffix(key, ").XY"+el+"#1")):
+							return k4val{kind: 1, b: !empty}, true
+						case !isBool && strings.HasSuffix(key, ").Coordinates"+el+"#0.Type"):
+							return k4val{kind: 2, f: m.Num[ctKey(i)]}, true
+						}
+					}
+					return k4val{}, false
+				}
 				for i := 0; i < n; i++ {
 					it.mem[fmt.Sprintf("P[%d]", i)] = k4val{kind: 3, s: fmt.Sprintf("P[%d]", i)}
 				}
